@@ -31,7 +31,8 @@ ASSUMPTIONS = ["granularity is the source line (as the property states); byte-co
                "NotImplementedError inside as_dict are outside the claim (reported as skipped / no-spec)"]
 EXHAUSTIVE = {"quick": "",
               "thorough": "all schedules of {enter;call;exit;enter;call;exit} || {call;call} || {source change} of the form "
-                          "owner a steps, caller b steps, change, owner c steps, rest (a<=26, b<=5, c<=26) for 3 method pairs"}
+                          "owner a steps, caller b steps, change, owner c steps, caller 4 steps, rest (a<=26, b<=5, c<=26 in steps "
+                          "of 1 for b in {2,3}, of 5 otherwise) for 3 method pairs"}
 
 SRC = ["stat", "status", "smaps", "statm"]
 METHODS = {  # name -> (Coq constructor, source)
@@ -728,11 +729,23 @@ def impl_run(case, coq, env):
 
 
 MANIFEST = {
-    "text": "Theorems (Coq): see coq/Properties/C16.v. The model (coq/C16/Model.v) transcribes memoize_when_activated, "
-            "oneshot(), as_dict() and the Linux memoized readers as a line-level interleaving semantics plus a sequential reading; "
-            "the harness runs the real psutil.Process over a fake /proc single-threaded and under a deterministic "
-            "sys.settrace line scheduler and compares answers and per-call open counts with the model and with the "
-            "specification (first-read-in-block ghost machine; allowed-answer windows for threads).",
-    "note": "Trusted: Coq kernel + vm_compute; hand-written model; harness, scheduler and fake /proc; CPython dict/attribute/RLock "
-            "semantics. Proof covers the model for all histories and all interleavings; sampling covers model-vs-code.",
+    "text": "Theorems (Coq 8.16, all closed under the global context; coq/Properties/C16.v). One thread, every history of "
+            "enter/exit/nested enter/exception in the body/call/source change: the sequential reading of memoize_when_activated + "
+            "oneshot() + the Linux memoized readers produces, call by call, the answers and per-call read counts of a ghost machine "
+            "written from the property text (first successful read in the block is kept, each of stat/status/smaps read at most once "
+            "per block, forgotten at the outermost exit whether normal or exceptional, nested blocks only counted); once no block is "
+            "open both _cache attributes are gone and calls read current data; nested enter+exit changes nothing but the lock count; "
+            "as_dict = TypeError/ValueError with the state untouched, else one block around the requested calls with ad_value for "
+            "AccessDenied/ZombieProcess, NoSuchProcess propagating, exactly the requested keys (checked against the generated table "
+            "of _as_dict_attrnames). Threads, every interleaving at source-line granularity, any number of threads and programs, "
+            "no bound on length (invariants over reachable configurations of lts_step): no AttributeError/KeyError of the cache "
+            "plumbing reaches a caller (refuted for the pre-issue-1948 wrapper); every value held by any cache dict was read after "
+            "that dict was created (refuted for the wrapper before commit 7b727b3, witness schedule replayed on the real code); a "
+            "returned value was read during the call or inside a block overlapping it; cache pointers never dangle; whoever creates/"
+            "removes dicts holds Process._lock. The model is tied to the code by running the real psutil.Process over a fake /proc, "
+            "single-threaded and under a deterministic sys.settrace line scheduler, against model and specification.",
+    "note": "Trusted: Coq kernel + vm_compute; hand-written model coq/C16/Model.v (tied by the correspondence run only); harness, "
+            "scheduler (pause points = the model's steps), fake /proc, read counting by frame inspection; CPython dict/attribute/"
+            "RLock/generator semantics. Granularity is the source line; byte-code level pre-emption and free-threaded builds are "
+            "outside. Proof covers the model for all histories/interleavings; sampling covers model-vs-code.",
 }
